@@ -14,7 +14,9 @@ from gen import bound_text, sides, wellformed_bound
 LEVEL = "proof"
 
 FAMILY = [(b"-", b"-xy"), (b"[-,]", b"-,xy"), (b"-|,,", b"-,xy"), (b",,|,", b",xy"), (b"-+", b"-xy"), ("é".encode(), "éxy".encode()),
-          (b"ab|a", b"abx"), (b"(-|,)+", b"-,x"), (b"a(b|cc)", b"abcx"), (b"\\|", b"|xy"), ("é|,".encode(), "é,x".encode())]
+          (b"ab|a", b"abx"), (b"(-|,)+", b"-,x"), (b"a(b|cc)", b"abcx"), (b"\\|", b"|xy"), ("é|,".encode(), "é,x".encode()),
+          # texts that end in `+` without the `+` binding the whole pattern: RE and (RE)+ differ on runs
+          (b"ab+", b"abx"), (b"-|,+", b"-,x"), (b"\\+", b"+xy"), (b", +", b", x")]
 REPLS = [b"/", b"::", b"", b"$0x", b"-", b",-", b"\\1"]
 
 
@@ -126,7 +128,7 @@ def spec_run(inp, cfg):
 
 
 def _run_once(chk):
-    chk.rule = ("regex family {-, [-,], -|,, (alternation of different lengths), ,,|, , -+, é, ab|a, (-|,)+, a(b|cc), \\|, é|,} × records over the "
+    chk.rule = ("regex family {-, [-,], -|,, (alternation of different lengths), ,,|, , -+, é, ab|a, (-|,)+, a(b|cc), \\|, é|,, ab+, -|,+, \\+, ', +'} × records over the "
                 "regex's own alphabet × bounds with sides in ±4/open and fallbacks × subsets of -g, -t l|r|b, -p -r R, -r R (R ∈ {/, ::, empty, $0x, -, ',-', "
                 "\\1}), -s, -m, -j; match positions of the real engine compared with python's re and the Lean matcher on every record; "
                 "non-trivial = selects a byte or fails")
